@@ -109,6 +109,7 @@ func (g *fgen) rprogram(apis, cfgs []string, maxTests, maxCalls int) *rprogram {
 // clone with some values changed / calls dropped / calls added (what makes entries stale)
 func (g *fgen) rmutate(n *rnode, change, drop, add float64, apis []string) *rnode {
 	m := &rnode{name: n.name, parallel: n.parallel, skip: n.skip}
+	move := g.chance(g.moveProb) // the test's snapshots move to another file: the old entries become stale
 	if g.chance(g.skipProb) {
 		m.skip = g.pick("Skip", "Skipf", "SkipNow")
 	}
@@ -120,10 +121,14 @@ func (g *fgen) rmutate(n *rnode, change, drop, add float64, apis []string) *rnod
 			break // drop this and all later calls: later ordinals become stale
 		}
 		if g.chance(change) {
-			m.calls = append(m.calls, g.call([]string{c.api}, []string{c.cfg}))
-		} else {
-			m.calls = append(m.calls, c)
+			c = g.call([]string{c.api}, []string{c.cfg})
 		}
+		if move && (c.api == "snapshot" || c.api == "json" || c.api == "yaml") && (c.cfg == "c" || c.cfg == "f") {
+			cp := *c
+			cp.cfg = map[string]string{"c": "f", "f": "c"}[c.cfg]
+			c = &cp
+		}
+		m.calls = append(m.calls, c)
 	}
 	if g.chance(add) {
 		cfg := "c"
@@ -195,9 +200,12 @@ func genCleanScenarios(g *fgen, n int, apis []string, modes []string, opt cleanG
 		if g.chance(0.3) {
 			cfgs = append(cfgs, "f")
 		}
+		if opt.oddDirs && g.chance(0.35) {
+			cfgs = append(cfgs, g.pick("nc", "gl"))
+		}
 		p := g.rprogram(apis, cfgs, opt.maxTests, opt.maxCalls)
 		sc := &Scenario{ID: g.id(), Configs: stdConfigs()}
-		g.skipProb, g.parProb, g.badProb = opt.skipProb, opt.parProb, opt.badProb
+		g.skipProb, g.parProb, g.badProb, g.moveProb = opt.skipProb, opt.parProb, opt.badProb, opt.moveProb
 		sc.Init = append(sc.Init, InitFile{P: "blocker", Content: []byte("a regular file\n"), Role: "other"})
 		if g.chance(opt.staleProb) {
 			sc.Init = append(sc.Init, staleFile(g, "main_test"))
@@ -250,6 +258,8 @@ type cleanGenOpts struct {
 	sortProb, againProb       float64
 	counts                    bool
 	skipProb, parProb, badProb float64
+	moveProb                  float64
+	oddDirs                   bool // some calls go through Configs whose Dir is not clean / holds glob characters
 	ciReplay                  bool // append a read-only CI run of the same program (no Clean)
 }
 
